@@ -78,14 +78,12 @@ int disasm_pdk15(
           snprintf(instruction, length, "%s [%d], a", table_pdk15[n].instr, m);
           return 2;
         case OP_A_M7:
-          bit = (opcode >> 7) & 0x7;
-          m = opcode & 0x7f;
-          snprintf(instruction, length, "%s a, [%d].%d", table_pdk15[n].instr, m, bit);
+          m = opcode & 0xfe;
+          snprintf(instruction, length, "%s a, [%d]", table_pdk15[n].instr, m);
           return 2;
         case OP_M7_A:
-          bit = (opcode >> 7) & 0x7;
-          m = opcode & 0x7f;
-          snprintf(instruction, length, "%s [%d].%d, a", table_pdk15[n].instr, m, bit);
+          m = opcode & 0xfe;
+          snprintf(instruction, length, "%s [%d], a", table_pdk15[n].instr, m);
           return 2;
         case OP_IO_N:
           bit = (opcode >> 7) & 0x7;
